@@ -152,6 +152,11 @@ fn escape_text(d: &mut Dec) -> String {
             }
             3 => s.push_str(*d.pick(&["\\u{d800}", "\\u{DFFF}", "\\u{110000}", "\\u{10FFFF}", "\\u{ffffffff}", "\\u{100000000}", "\\u{}", "\\u", "\\u{+41}", "\\u{ 41}", "\\u{g}"])),
             4 => s.push('\\'),
+            // a backslash before a character of two, three or four bytes
+            7 => {
+                s.push('\\');
+                s.push(*d.pick(&['é', 'Ü', '語', '😀', '\u{a0}', '\u{301}', 'ß']));
+            }
             5 => s.push_str("\\\n"),
             6 => s.push(*d.pick(&['\u{0}', '\u{7f}', '\u{85}', '\u{2028}', '\u{feff}', '😀', '\r', '\n'])),
             _ => s.push((b'a' + d.below(26) as u8) as char),
